@@ -473,6 +473,24 @@ func (r *runner) exec(i int, st *step) {
 		rC := r.decode("C/native", name, args, raw)
 		r.check(0, 2, "A/resp vs C/native", name, args, vA, rC)
 	case "httpget", "httppost":
+		if path := mvtPath(args, []string{".mvt", ".pbf"}[i%2]); path != "" && lane == "httpget" {
+			// the path form of a vector-tile request
+			if rt, jt, ok := tilesOf(vA, rB); ok {
+				h, err := httpGetRaw(addr, path)
+				if err != nil {
+					if isDialErr(err) {
+						r.giveUp(err.Error())
+					}
+					r.fail("http-frame:mvt", fmt.Sprintf("GET %s: %v", path, err))
+				}
+				if key, what := mvtHTTPAgree(path, h, rt, jt); key != "" {
+					r.fail(key, what+" ("+t38.CmdString(args)+")")
+				}
+				r.label("http-mvt-path")
+				r.label("lane:httpget-mvt-path")
+				break
+			}
+		}
 		h, err := httpDo(addr, args, lane == "httppost", "")
 		if err != nil {
 			if isDialErr(err) {
